@@ -61,6 +61,7 @@ RULES = {
     "R-SIBLING-FORWARD": ("rules.round3", "r_sibling_forward"),
     "R-TAG-CONSTS": ("rules.round3", "r_tag_consts"),
     "R-BITMASK-DEFS": ("rules.round3", "r_bitmask_defs"),
+    "R-ARG-ORDER": ("rules.round3", "r_arg_order"),
     "R-ACCT": ("rules.acct", "r_acct"),
     "R-CTRL-WRITE": ("rules.acct", "r_ctrl_write"),
     "R-ERASE-BEFORE": ("rules.ownership", "r_erase_before"),
@@ -307,7 +308,7 @@ for _p, _rs in _ROUND2.items():
         PROPS[_p]["decided"] += "; also: " + _extra
 
 # rules added after the third round of independent mutations (DESIGN.md 12.8)
-_ROUND3 = {'C16': ['R-REBORROW'], 'C02': ['R-REBORROW', 'R-DUP-FORGET', 'R-OWNING-ITER', 'R-CLONE-GUARD-RANGE', 'R-DROP-ORDER', 'R-PAR-CONSUME', 'R-LINEAR-INNER', 'R-TAG-CONSTS', 'R-BITMASK-DEFS'], 'C14': ['R-REBORROW', 'R-KEEP-KEY'], 'C15': ['R-REBORROW'], 'C03': ['R-PAR-CONSUME', 'R-SIBLING-FORWARD'], 'C10': ['R-PAR-CONSUME', 'R-ZST-PTR', 'R-DUP-FORGET'], 'C06': ['R-ZST-PTR', 'R-BULKDROP-GUARD', 'R-SIBLING-FORWARD', 'R-BITMASK-DEFS'], 'C09': ['R-ZST-PTR', 'R-ACCT', 'R-TAG-CONSTS', 'R-BITMASK-DEFS'], 'C01': ['R-HINT-LOWER', 'R-SIBLING-FORWARD', 'R-TAG-CONSTS', 'R-BITMASK-DEFS'], 'C07': ['R-LINK', 'R-SIBLING-FORWARD'], 'C12': ['R-TRY-WRAPPERS', 'R-SIBLING-FORWARD'], 'C08': ['R-CAP-WRAPPERS', 'R-HINT-LOWER', 'R-SIBLING-FORWARD'], 'C05': ['R-BUCKET-FRESH', 'R-RESERVE-FIRST', 'R-TAG-CONSTS', 'R-BITMASK-DEFS'], 'C11': ['R-SIBLING-FORWARD'], 'C13': ['R-TAG-CONSTS'], 'C17': ['R-TAG-CONSTS']}
+_ROUND3 = {'C16': ['R-REBORROW'], 'C02': ['R-REBORROW', 'R-DUP-FORGET', 'R-OWNING-ITER', 'R-CLONE-GUARD-RANGE', 'R-DROP-ORDER', 'R-PAR-CONSUME', 'R-LINEAR-INNER', 'R-TAG-CONSTS', 'R-BITMASK-DEFS', 'R-ARG-ORDER'], 'C14': ['R-REBORROW', 'R-KEEP-KEY', 'R-ARG-ORDER'], 'C15': ['R-REBORROW'], 'C03': ['R-PAR-CONSUME', 'R-SIBLING-FORWARD'], 'C10': ['R-PAR-CONSUME', 'R-ZST-PTR', 'R-DUP-FORGET'], 'C06': ['R-ZST-PTR', 'R-BULKDROP-GUARD', 'R-SIBLING-FORWARD', 'R-BITMASK-DEFS', 'R-ARG-ORDER'], 'C09': ['R-ZST-PTR', 'R-ACCT', 'R-TAG-CONSTS', 'R-BITMASK-DEFS'], 'C01': ['R-HINT-LOWER', 'R-SIBLING-FORWARD', 'R-TAG-CONSTS', 'R-BITMASK-DEFS', 'R-ARG-ORDER'], 'C07': ['R-LINK', 'R-SIBLING-FORWARD', 'R-ARG-ORDER'], 'C12': ['R-TRY-WRAPPERS', 'R-SIBLING-FORWARD'], 'C08': ['R-CAP-WRAPPERS', 'R-HINT-LOWER', 'R-SIBLING-FORWARD'], 'C05': ['R-BUCKET-FRESH', 'R-RESERVE-FIRST', 'R-TAG-CONSTS', 'R-BITMASK-DEFS'], 'C11': ['R-SIBLING-FORWARD'], 'C13': ['R-TAG-CONSTS'], 'C17': ['R-TAG-CONSTS'], 'C19': ['R-ARG-ORDER']}
 _ROUND3_CLAUSE = {
     "R-REBORROW": "a by-reference method of a mutable-access handle (entry, IterMut, Drain, ..) never returns the handle's own collection lifetime (R-REBORROW)",
     "R-PAR-CONSUME": "the parallel drain leaf forgets its producer only when its cursor is exhausted, every taken element is consumed (R-PAR-CONSUME)",
@@ -317,6 +318,7 @@ _ROUND3_CLAUSE = {
     "R-KEEP-KEY": "insert on an occupied entry replaces exactly the value of the stored pair (R-KEEP-KEY)",
     "R-HINT-LOWER": "space reserved ahead of extend/from_iter is sized from the lower size_hint bound only (R-HINT-LOWER)",
     "R-LINK": "a set's table is never replaced without its hasher (R-LINK)",
+    "R-ARG-ORDER": "no call of a crate function passes a value named like another same-typed parameter in the wrong position (swapped arguments; 3 listed intentional swaps) (R-ARG-ORDER)",
     "R-BITMASK-DEFS": "the bit iterator removes exactly the bit it yields; remove_lowest_bit, invert and the bit->index conversions are the definitions the scans rely on (R-BITMASK-DEFS)",
     "R-TAG-CONSTS": "the masks of Tag::{is_full,is_special,special_is_empty} classify EMPTY, DELETED and every Tag::full value consistently (constant relations) (R-TAG-CONSTS)",
     "R-SIBLING-FORWARD": "every wrapper of HashSet/HashMap/HashTable whose layer below has a same-named operation uses it (70 wrappers, 4 listed exceptions) (R-SIBLING-FORWARD)",
